@@ -120,9 +120,13 @@ def _write(text, name):
             _TMP[0] = base
         else:
             _TMP[0] = tempfile.mkdtemp(prefix='chiverif_sbml_')
+    # worker processes share the directory: write under a private name and
+    # rename (atomic), so that no reader ever sees a half-written file
     path = os.path.join(_TMP[0], name)
-    with open(path, 'w') as f:
+    tmp = '%s.%d.tmp' % (path, os.getpid())
+    with open(tmp, 'w') as f:
         f.write(text)
+    os.replace(tmp, path)
     return path
 
 
